@@ -75,6 +75,19 @@ def render_unit(ty, cases):
     return "\n".join(src) + "\n"
 
 
+CAST_TYPES = [("i8", "signed char"), ("i16", "short"), ("i32", "int"), ("i64", "long"), ("u8", "unsigned char"), ("u16", "unsigned short"),
+              ("u32", "unsigned int"), ("u64", "unsigned long"), ("f32", "float"), ("f64", "double"), ("f80", "long double"), ("b", "_Bool")]
+
+
+def render_casts():
+    """every row x column of codegen.c's cast table (plus _Bool), each conversion in a loop"""
+    src = []
+    for fn, ft in CAST_TYPES:
+        for tn, tt in CAST_TYPES:
+            src.append("%s cast_%s_%s(%s x, int n) { %s r; r = 0; for (int i = 0; i < n; i++) r = (%s)x; return r; }" % (tt, fn, tn, ft, tt, tt))
+    return "\n".join(src) + "\n"
+
+
 # ------------------------------------------------------------ compilation
 def compile_S(ctx, tree, src, out, incs=()):
     env = dict(os.environ, CHIBICC_VERIF_TRACE=os.path.join(ctx.scratch, "h5.trace"))
@@ -262,6 +275,11 @@ def run(ctx):
         for cs in units[ty][1]:
             casemap["discard_%s:c_%d" % (ty, cs["idx"])] = cs
             casemap["discard_%s:r_%d" % (ty, cs["idx"])] = cs
+    f = os.path.join(d, "casts.c")
+    open(f, "w").write(render_casts())
+    pr, hooked, asm = unit_program(ctx, tree, "casts", f, [])
+    prog += pr
+    unitsrc["casts"] = (open(f).read(), asm, None)
     ctx.phase("discard compiled (%d cases, hooked=%s)" % (len(cases), hooked_any))
     # ---- repository corpus
     srcs = sorted(glob.glob(tree + "/test/*.c")) + sorted(glob.glob(tree + "/*.c"))
